@@ -354,10 +354,13 @@ def reduce_rules(ctx):
               "grid_level is reduced from the two stored sides only", f"grid level reduction is {gl}")
     # buffers come from limit_level_arr: grid of the limit level on (cx, cy)
     la = prog.func(MA, "Mandoline.limit_level_arr", P)
-    sh = formulas.find_assign(la, "shape")
-    ctx.check(sh is not None and norm(sh.value) == "self.grid_sizes[self.limit_level][[self.cx, self.cy]]",
+    lenv = local_env(la.node)
+    allocs = [c for c in walk_no_nested(la.node) if isinstance(c, ast.Call) and norm(c.func) in ("np.empty", "np.zeros")
+              and c.args]
+    shapes = [norm(rules.resolve(c.args[0], lenv)[0]) for c in allocs]
+    ctx.check(shapes == ["self.grid_sizes[self.limit_level][[self.cx, self.cy]]"],
               f"{P}.DIM-COH", la.site, "buffers have the limit level's (cx, cy) grid size",
-              f"buffer shape is {norm(sh.value) if sh else None}")
+              f"buffer shape is {shapes}")
 
 
 def output_rules(ctx):
